@@ -25,7 +25,7 @@ RULE = (
 )
 ASSUMPTIONS = [
     "quantile levels are drawn from [0.01, 0.995]; outside, the mixture grid may legitimately raise 'Grid does not span'",
-    "mixture quantile resolution = (1.1*max_i q_i(0.999) - 0.9*min_i q_i(0.001))/999 as documented by the grid construction",
+    "mixture quantile resolution = (grid_max - grid_min)/999 with the grid spanning the components' 0.1% / 99.9% quantiles widened by 10%",
     "scipy.stats.norm is trusted as the CDF reference; float32 tolerances 2e-5 on probabilities",
 ]
 
@@ -228,8 +228,9 @@ def _check_dist(case, res):
     else:  # mixture
         locs, scales, w = onp.array(d["locs"]), onp.array(d["scales"]), onp.array(d["weights"])
         cdf = lambda x: float((w * norm.cdf((x - locs) / scales)).sum())
-        gmin = float((norm.ppf(0.001) * scales + locs).min()) * 0.9
-        gmax = float((norm.ppf(0.999) * scales + locs).max()) * 1.1
+        gmin = float((norm.ppf(0.001) * scales + locs).min())
+        gmax = float((norm.ppf(0.999) * scales + locs).max())
+        gmin, gmax = gmin - 0.1 * abs(gmin), gmax + 0.1 * abs(gmax)  # grid = component 0.1% / 99.9% quantiles widened by 10%
         step = (gmax - gmin) / 999.0
         for q, v in zip(qs, vals):
             if cdf(v) < q - 2e-5:
@@ -355,4 +356,6 @@ def check(case) -> CaseResult:
 
 
 def regressions():
-    return []
+    """fixed: mixture with a component below zero - low quantile levels raised 'Grid does not span'."""
+    return [{"as_connection": False, "dist": {"kind": "mixture", "locs": [0.343, -0.017], "scales": [0.001, 0.001], "weights": [0.5, 0.5]}, "jit": False,
+             "key": 26548034, "key2": 42396, "qs": [0.01, 0.171, 0.343], "shape": [3, 5], "what": "dist"}]
